@@ -50,6 +50,8 @@ def plan(tier, seed):
             jobs.append({"k": "rand", "suffix": suffix, "i": i, "seed": seed, "n": 20, "flavour": "rel"})
     if tier == "thorough":
         for suffix in langs.ALL_SUFFIXES:
+            if suffix == "swift":
+                continue     # every .swift parse trips the recorded C04 finding (scanner calloc(0)) under ASan
             for i in range(6):
                 jobs.append({"k": "rand", "suffix": suffix, "i": i, "seed": seed, "n": 20, "flavour": "asan"})
     return jobs
